@@ -5,6 +5,7 @@ import XcpProofs.Overlay
 import XcpProofs.MultiSource
 import XcpProofs.MultiSourceExample
 import XcpProofs.EndToEnd
+import XcpProofs.OptionIrrelevance
 /-! # C02 — exit 0 implies the destination tree mirrors the selected source tree
 
 Model slice: `targetBase` (cp's mapping rule), `walkEntry` (one operation per selected entry, by kind),
@@ -263,5 +264,19 @@ theorem whole_invocation_instance (texts : GiTexts) :
     ∃ fs', L1run MultiSourceExample.fs0 MultiSourceExample.o0 texts = ⟨.ok, fs'⟩ ∧
       FsEq fs' { MultiSourceExample.fs0 with root := MultiSourceExample.expectedRoot } :=
   MultiSourceExample.l1run_instance texts
+
+/-- the result of a whole invocation depends only on the options that are ABOUT the namespace (no-clobber, dereference,
+no-target-directory, gitignore, recursive, force, glob, target directory, the paths): driver, worker count, block size
+(`--no-progress`), `--fsync`, `--no-perms`, `--no-timestamps`, `--ownership`, `--reflink`, `--backup` and the backend cannot
+change it — the checks draw these at random per scenario and compare with the same model answer -/
+theorem driver_and_metadata_options_do_not_change_the_tree (fs : Fs) (o o' : Opts) (texts : GiTexts)
+    (hc : o.cfg.sameShape o'.cfg) (hf : o.force = o'.force) (hg : o.glob = o'.glob)
+    (ht : o.targetDir = o'.targetDir) (hp : o.paths = o'.paths) :
+    L1run fs o texts = L1run fs o' texts :=
+  l1run_depends_only_on_shape_options fs o o' texts hc hf hg ht hp
+
+/-- `Cfg.sameShape` is agreement on exactly five fields; every other field is free -/
+example (c : Cfg) (w b : Nat) (x : Bool) : c.sameShape { c with workers := w, bsize := b, parblock := x, fsync := x, noPerms := x, ownership := x } :=
+  ⟨rfl, rfl, rfl, rfl, rfl⟩
 
 end Xcp.C02
